@@ -6,6 +6,7 @@ mod error;
 mod model;
 
 pub use crate::ip::{IPv4, IPv6};
+use crate::PartialResult;
 pub use error::{BinaryParseError, ParseError};
 pub use model::{Addresses, Header, SEPARATOR, TCP4, TCP6, UNKNOWN};
 pub use model::{PROTOCOL_PREFIX, PROTOCOL_SUFFIX};
@@ -27,6 +28,32 @@ const PARTS: usize = 7;
 /// Parses a text PROXY protocol header.
 /// The given string is expected to only include the header and to end in \r\n.
 fn parse_header(header: &str) -> Result<Header, ParseError> {
+    match parse_line(header) {
+        // Once the byte after the first CR is present no further input can complete the line.
+        Err(error) if error.is_incomplete() && is_terminated(header) => Err(terminal(error)),
+        result => result,
+    }
+}
+
+/// Tests whether the header contains a CR that is followed by at least one more byte.
+fn is_terminated(header: &str) -> bool {
+    match header.find(CARRIAGE_RETURN) {
+        Some(index) => index + 1 < header.len(),
+        None => false,
+    }
+}
+
+/// The terminal error that corresponds to an incomplete one on a line that can no longer grow.
+fn terminal(error: ParseError) -> ParseError {
+    match error {
+        ParseError::MissingSourcePort => ParseError::InvalidSourcePort(None),
+        ParseError::MissingDestinationPort => ParseError::InvalidDestinationPort(None),
+        _ => ParseError::InvalidSuffix,
+    }
+}
+
+/// Parses the line of a text PROXY protocol header.
+fn parse_line(header: &str) -> Result<Header, ParseError> {
     if header.is_empty() {
         return Err(ParseError::MissingPrefix);
     } else if header.len() > MAX_LENGTH {
